@@ -3,11 +3,16 @@
    rendered through escape; an HTML tokenizer's unescape reads the rendered bytes back to the
    original text (unescape (escape d) = d for every byte string), and the rendered bytes contain
    none of the characters less-than, greater-than, double quote, apostrophe, CR, so no input text can open or close markup; nothing else is emitted for it.
-   Missing: the statement about the whole re-tokenised output (Html/RoundTrip: adjacency of text
-   items, tags in between); carried by the text-equality oracle on every generated case. *)
+   Proved for whole documents, for every policy that keeps no comments and allows no raw-text
+   element and every input without script, style and skip-content tags: the text the tokenizer
+   reads from the output bytes is the text it reads from the input, with exactly one blank for
+   every removed tag under AddSpaceWhenStrippingTag (C06_output_text) and no difference at all
+   otherwise (C06_output_text_equal).
+   Missing: policies that keep comments (comments carry no text, but the round-trip theorem does
+   not cover them yet); carried by the text-equality oracle on every generated case. *)
 From Coq Require Import List NArith Bool.
 Import ListNotations.
-From BM Require Import Bytes Escape Tokenizer Policy Loop LoopInv LoopProps EscapeProofs MiscProofs.
+From BM Require Import Bytes Escape Tokenizer Policy Loop LoopInv LoopProps EscapeProofs MiscProofs SanRoundTrip TokenLevel.
 
 Section C06.
   Variables M U R : Type.
@@ -29,9 +34,23 @@ Section C06.
   Proof.
     intros safe ts d Hin. destruct (emitted_justified I p safe ts _ Hin) as (st & t & _ & Hj). exact Hj.
   Qed.
+
+  (* whole documents.  expected_text: a text token contributes its data, an emitted tag nothing, a
+     removed tag one blank when AddSpaceWhenStrippingTag is on (TokenLevel.contribution) *)
+  Theorem C06_output_text : plain_policy I p -> forall s,
+    forallb (clean_tok M U R p) (tokenize s) = true ->
+    text_of (tokenize (sanitize_bytes I p s)) = expected_text M U R I p init_state (tokenize s).
+  Proof. intros Hplain s. apply output_text; exact Hplain. Qed.
+
+  Theorem C06_output_text_equal : plain_policy I p -> addSpaces p = false -> forall s,
+    forallb (clean_tok M U R p) (tokenize s) = true ->
+    text_of (tokenize (sanitize_bytes I p s)) = text_of (tokenize s).
+  Proof. intros Hplain Ha s. apply output_text_equal; assumption. Qed.
 End C06.
 
 Print Assumptions C06_text_emitted_once_partial.
 Print Assumptions C06_read_back.
 Print Assumptions C06_inert.
 Print Assumptions C06_never_raw.
+Print Assumptions C06_output_text.
+Print Assumptions C06_output_text_equal.
